@@ -715,7 +715,7 @@ class XsdGroup(XsdComponent, MutableSequence[ModelParticleType],
         elif self.model == 'choice':
             if all(e.is_substitute(other) for e in self):
                 return True
-            return any(e.is_restriction(other, False) for e in self)
+            return all(e.max_occurs == 0 or e.is_restriction(other, False) for e in self)
         else:
             min_occurs = 0
             max_occurs: Optional[int] = 0
